@@ -165,6 +165,66 @@ def step (st : DState) (line : String) : DState × String :=
     | some op => let (s', r) := st.ubs.step op
                  ({ st with ubs := s' }, showUErr r ++ " | " ++ showUBS s')
     | none => (st, "bad-op")
+  | "cryst.B" :: rest =>
+    match parseFloats rest with
+    | some [a1, a2, a3, l1, l2, l3] => (st, showM3 (Gen.reciprocalB a1 a2 a3 l1 l2 l3))
+    | _ => (st, "bad-op")
+  | "cryst.call" :: sys :: rest =>
+    match parseFloats rest with
+    | some nums =>
+      match CrystalModel.cellOfCall (if sys == "-" then none else some sys) nums with
+      | some (s, c) => (st, s!"{s} {showFloat c.1} {showFloat c.2.1} {showFloat c.2.2.1} {showFloat c.2.2.2.1} {showFloat c.2.2.2.2.1} {showFloat c.2.2.2.2.2} | {showM3 (CrystalModel.Bof c)}")
+      | none => (st, "none")
+    | none => (st, "bad-op")
+  | "cryst.dist" :: rest =>
+    match parseFloats rest with
+    | some [b0, b1, b2, b3, b4, b5, b6, b7, b8, h, k, l] =>
+      match CrystalModel.planeDistance ⟨b0, b1, b2, b3, b4, b5, b6, b7, b8⟩ ⟨h, k, l⟩ with
+      | .ok d => (st, "ok " ++ showFloat d)
+      | .error .zeroDiv => (st, "zeroDiv")
+      | .error .valueError => (st, "valueError")
+      | .error _ => (st, "other-error")
+    | _ => (st, "bad-op")
+  | "cryst.tth" :: rest =>
+    match parseFloats rest with
+    | some [b0, b1, b2, b3, b4, b5, b6, b7, b8, h, k, l, en] =>
+      match CrystalModel.ttheta ⟨b0, b1, b2, b3, b4, b5, b6, b7, b8⟩ ⟨h, k, l⟩ en with
+      | .ok d => (st, "ok " ++ showFloat d)
+      | .error .dce => (st, "dce")
+      | .error _ => (st, "other-error")
+    | _ => (st, "bad-op")
+  | "hkl" :: rest =>
+    match parseFloats rest with
+    | some [b0, b1, b2, b3, b4, b5, b6, b7, b8, mu, de, nu, et, ch, ph, wl] =>
+      (st, showV3 (Gen.get_hkl ⟨b0, b1, b2, b3, b4, b5, b6, b7, b8⟩ mu de nu et ch ph wl))
+    | _ => (st, "bad-op")
+  | "qphi" :: rest =>
+    match parseFloats rest with
+    | some [mu, de, nu, et, ch, ph] => (st, showV3 (Gen.get_q_phi mu de nu et ch ph))
+    | _ => (st, "bad-op")
+  | "rot" :: name :: rest =>
+    match parseFloats rest with
+    | some [t] =>
+      match name with
+      | "x_rotation" => (st, showM3 (Gen.x_rotation t))
+      | "y_rotation" => (st, showM3 (Gen.y_rotation t))
+      | "z_rotation" => (st, showM3 (Gen.z_rotation t))
+      | "rot_MU" => (st, showM3 (Gen.rot_MU t))
+      | "rot_DELTA" => (st, showM3 (Gen.rot_DELTA t))
+      | "rot_NU" => (st, showM3 (Gen.rot_NU t))
+      | "rot_ETA" => (st, showM3 (Gen.rot_ETA t))
+      | "rot_CHI" => (st, showM3 (Gen.rot_CHI t))
+      | "rot_PHI" => (st, showM3 (Gen.rot_PHI t))
+      | _ => (st, "bad-op")
+    | _ => (st, "bad-op")
+  | "fq" :: name :: rest =>
+    match parseFloats rest with
+    | some [x, q, b0, b1, b2, b3, b4, b5, b6, b7, b8, a, b, c, d] =>
+      match Gen.solveFixed name x q ⟨b0, b1, b2, b3, b4, b5, b6, b7, b8⟩ a b c d with
+      | .ok vs => (st, "ok " ++ String.intercalate " " (vs.map fun v => s!"{showFloat v.1} {showFloat v.2.1} {showFloat v.2.2}"))
+      | .error .dce => (st, "dce")
+      | .error _ => (st, "other-error")
+    | _ => (st, "bad-op")
   | ["fr.reset"] => ({ st with frames := Frames.init }, "ok")
   | "fr.set" :: which :: rest =>
     match parseV3 rest with
